@@ -476,9 +476,24 @@ func (s *Store) GC(ctx context.Context) error {
 	defer s.sync.Unlock()
 
 	// get reachable nodes by reloading the index
+	oldRefs := s.tagResolver.Map()
 	err := s.gcIndex(ctx)
 	if err != nil {
 		return fmt.Errorf("unable to reload index: %w", err)
+	}
+	// keep the digest references of the content that stays in the graph, so
+	// that it resolves as before and is still indexed when the store is
+	// reopened after its predecessors have been deleted
+	for ref, desc := range oldRefs {
+		if ref != desc.Digest.String() || !s.graph.Exists(desc) {
+			continue
+		}
+		if _, err := s.tagResolver.Resolve(ctx, ref); err == nil {
+			continue
+		}
+		if err := s.tagResolver.Tag(ctx, deleteAnnotationRefName(desc), ref); err != nil {
+			return err
+		}
 	}
 	reachableNodes := s.graph.DigestSet()
 
